@@ -10,6 +10,7 @@ import (
 	"os"
 	"runtime/debug"
 	"strings"
+	"syscall"
 	"time"
 
 	"github.com/jamespfennell/gtfs"
@@ -55,6 +56,15 @@ var SortNorm = &sim.DumpOpts{SortTypes: map[string]bool{
 	"gtfs.Service":             true,
 	"gtfs.AlertInformedEntity": true,
 }}
+
+// DupStdout duplicates fd 1 (reports keep flowing after Silence has pointed os.Stdout at /dev/null).
+func DupStdout() int {
+	fd, err := syscall.Dup(1)
+	if err != nil {
+		panic(err)
+	}
+	return fd
+}
 
 // guard runs f and converts a panic into (stack, true).
 func guard(f func()) (panicVal any, stack string) {
